@@ -460,6 +460,16 @@ pub fn check_c03(ix: &Ix<'_>, v: &mut Vec<Violation>) {
         }
     }
 
+    // with the topic router every publish is handled by the resource its (resolved) topic names
+    if ix.out.plan.tags.iter().any(|t| t == "motif:alias-rebind-across-routes") {
+        for (g, seen) in ix.pub_gates(conn) {
+            let want = c17_route(&seen.topic, ix.out.plan.cfg.use_router, !ix.out.plan.role.is_server());
+            if !seen.topic.is_empty() && seen.route != want {
+                viol(v, "C03", format!("C03/handled-by-wrong-resource/{role}"), format!("PUBLISH {:?} was handled by {} instead of {want}", seen.topic, seen.route), g.enter);
+                break;
+            }
+        }
+    }
     // the Maximum QoS in force (server roles): configured, or lowered by the handshake's CONNACK (MQTT 5)
     let cfg = &ix.out.plan.cfg;
     let max_qos = if ix.out.plan.role.is_server() { if v5 { cfg.hs_max_qos.unwrap_or(cfg.max_qos) } else { cfg.max_qos } } else { 2 };
@@ -862,6 +872,10 @@ pub fn check_c06(ix: &Ix<'_>, v: &mut Vec<Violation>) {
     }
     // (2) identifiers of simultaneously outstanding sends are non-zero and pairwise distinct
     let mut outstanding: Vec<u16> = Vec::new();
+    // (a deviating peer may send a final ack for an id that is not outstanding on the wire: the endpoint can
+    // only match it with the next exchange that uses the id - which may already sit in its write buffer -
+    // so such an ack closes that next exchange in this wire-side model too)
+    let mut early_acks: Vec<u16> = Vec::new();
     for e in &ix.out.hist {
         match &e.ev {
             Ev::EpPacket { conn: 0, pkt, .. } => {
@@ -874,6 +888,10 @@ pub fn check_c06(ix: &Ix<'_>, v: &mut Vec<Violation>) {
                 if let Some(pid) = pid {
                     if pid == 0 {
                         viol(v, "C06", format!("C06/zero-id/{role}"), format!("{} written with packet id 0", pkt.brief()), e.seq);
+                    }
+                    if let Some(k) = early_acks.iter().position(|x| *x == pid) {
+                        early_acks.swap_remove(k);
+                        continue;
                     }
                     if outstanding.contains(&pid) {
                         viol(v, "C06", format!("C06/id-reused-while-outstanding/{role}/{}", pkt.name()), format!("{} reuses id {pid} before the peer acknowledged the earlier exchange", pkt.brief()), e.seq);
@@ -891,7 +909,11 @@ pub fn check_c06(ix: &Ix<'_>, v: &mut Vec<Violation>) {
                     _ => None,
                 };
                 if let Some(pid) = fin {
-                    outstanding.retain(|x| *x != pid);
+                    if outstanding.contains(&pid) {
+                        outstanding.retain(|x| *x != pid);
+                    } else if deviated {
+                        early_acks.push(pid);
+                    }
                 }
             }
             _ => {}
